@@ -34,6 +34,7 @@ EXTENDS Boolability
 (*   kind: isinstance issubclass typeis typeguard is eq in truthy boolcall *)
 (*         len c_isinstance c_isvalue not and or                           *)
 (*         cmp   x < lit, x <= lit, x > lit, x >= lit  (op, lits[1])        *)
+(*         lenr  n op len(x)  (the literal on the left)                     *)
 (*         m_value m_singleton m_class m_or m_seq (patterns of `match x:`) *)
 (*   m_seq: a sequence pattern of capture sub-patterns; n = number of      *)
 (*         non-star elements, op = "" (no star) or the index of the star   *)
@@ -53,6 +54,7 @@ CTruthy == Cnd("truthy", << >>, << >>, Never, "", 0, FALSE, << >>)
 CBoolCall == Cnd("boolcall", << >>, << >>, Never, "", 0, FALSE, << >>)
 CLen(op, n) == Cnd("len", << >>, << >>, Never, op, n, FALSE, << >>)
 CCmp(op, lit) == Cnd("cmp", << >>, <<lit>>, Never, op, 0, FALSE, << >>)
+CLenR(op, n) == Cnd("lenr", << >>, << >>, Never, op, n, FALSE, << >>)
 CLegacyIsinstance(c) == Cnd("c_isinstance", <<c>>, << >>, Never, "", 0, FALSE, << >>)
 CLegacyIsvalue(lit) == Cnd("c_isvalue", << >>, <<lit>>, Never, "", 0, FALSE, << >>)
 \* match x: case <pattern>: ... case _: ...   (value, singleton, class pattern without sub-patterns, or-pattern)
@@ -103,6 +105,7 @@ HoldsCode(c, o) ==
       [] c.kind = "in" -> B2C((\E i \in 1..Len(c.lits) : PyEq(o, c.lits[i])) # c.neg)
       [] c.kind \in {"truthy", "boolcall"} -> B2C(Truthy(o))
       [] c.kind = "len" -> IF ~HasLen(o) THEN 2 ELSE B2C(Cmp(PyLen(o), c.op, c.n))
+      [] c.kind = "lenr" -> IF ~HasLen(o) THEN 2 ELSE B2C(Cmp(c.n, c.op, PyLen(o)))         \* n op len(x)
       \* x < 1: TypeError unless x is a number (no object of the universe defines an ordering against int)
       [] c.kind = "cmp" -> IF ~IsNumeric(o) THEN 2 ELSE B2C(Cmp(Num2(o), c.op, Num2(c.lits[1])))
       [] c.kind = "not" -> LET h == HoldsCode(c.subs[1], o) IN IF h = 2 THEN 2 ELSE 1 - h
@@ -152,6 +155,7 @@ PatternType(lits) == IF lits # << >> /\ \A i \in 1..Len(lits) : lits[i].c = lits
 PIn(lits) == Pred("in", Never, FALSE, lits, FALSE, "", 0, PatternType(lits), FALSE)
 PLen(op, n) == Pred("len", Never, FALSE, << >>, FALSE, op, n, "", FALSE)
 \* predicate_func of _constraint_from_compare_op for <, <=, >, >= against a literal on the right (name_check_visitor.py:3634)
+MirrorOp(op) == CASE op = "<" -> ">" [] op = "<=" -> ">=" [] op = ">" -> "<" [] op = ">=" -> "<=" [] OTHER -> op
 PCmp(op, lit) == Pred("cmp", Never, FALSE, <<lit>>, FALSE, op, 0, "", FALSE)
 \* patma.py: IsAssignablePredicate(MatchableSequence, ...) -- MatchableSequence (patma.py:127) is Sequence annotated with
 \* Exclude[str | bytes | bytearray]; the marker ptype = "matchseq" stands for that annotation
@@ -244,6 +248,9 @@ ImplOfCond(c) ==
       [] c.kind = "truthy" -> EquivMake(<<ACon(ConTruthy(TRUE)), ANull>>)                   \* :4184 _visit_possible_constraint
       [] c.kind = "boolcall" -> ACon(ConTruthy(TRUE))                                       \* implementation.py:1597 _bool_impl
       [] c.kind = "len" -> ACon(ConPredicate(TRUE, PLen(c.op, c.n)))                        \* :3656 _constraint_from_predicate_provider
+      \* :3575 the PredicateProvider on the right: _constraint_from_predicate_provider(rhs_constraint, lhs.val, op) -- the operator
+      \* is passed on as written, i.e. `3 < len(x)` is read as `len(x) < 3` (proposed/C02-fix-6.diff mirrors it)
+      [] c.kind = "lenr" -> ACon(ConPredicate(TRUE, PLen(IF "len_reversed_mirrored" \in NFixed THEN MirrorOp(c.op) ELSE c.op, c.n)))
       [] c.kind = "cmp" -> ACon(ConPredicate(TRUE, PCmp(c.op, c.lits[1])))                 \* :3634 _constraint_from_compare_op (always positive=True)
       [] c.kind = "c_isinstance" -> ACon(ConIsInstance(TRUE, c.cls[1]))                     \* implementation.py:186 (assert_is_instance)
       [] c.kind = "c_isvalue" -> ACon(ConIsValue(TRUE, c.lits[1]))                          \* implementation.py:1540 (assert_is)
@@ -443,7 +450,8 @@ ImplNarrowVisitor(V, c, pol) ==
 (* Known deviations of the current code (see known_findings.jsonl,         *)
 (* proposed/C02-findings.jsonl): class keys printed as "dev:<key>"         *)
 (***************************************************************************)
-RECURSIVE CondMentions(_, _), CondHasKind(_, _), CondTestsParametrised(_)
+RECURSIVE CondMentions(_, _), CondHasKind(_, _), CondTestsParametrised(_), CondHasLenR(_, _)
+CondHasLenR(c, op) == (c.kind = "lenr" /\ c.op = op) \/ \E i \in 1..Len(c.subs) : CondHasLenR(c.subs[i], op)
 \* the condition is a TypeIs test against a parametrised generic / tuple shape
 CondTestsParametrised(c) ==
     \/ c.kind = "typeis" /\ c.t.k \in {"generic", "seq"}
@@ -490,8 +498,14 @@ Dev_InvariantOverlap(V, c, o) ==
     /\ o.c \in {"list", "set", "dict"} /\ o.items # << >> /\ CondTestsParametrised(c)
     /\ \E g \in {"Sequence", "Iterable", "Mapping"} : Mentions(V, g) /\ IsInstance(o, g)
 
+\* 7. a length comparison with the literal on the left (`3 < len(x)`) keeps its operator although the operands are swapped
+\*    (name_check_visitor.py:3575): it narrows as `len(x) < 3`, so both branches lose the sequences they really get
+Dev_ReversedLenComparison(V, c, o) ==
+    /\ "len_reversed_mirrored" \notin NFixed /\ HasLen(o)
+    /\ \E op \in {"<", "<=", ">", ">="} : CondHasLenR(c, op)
 DevClassOfLost(V, c, o) ==
-    IF Dev_NumericPromotion(V, c, o) THEN "numeric-promotion-lost-by-isinstance"
+    IF Dev_ReversedLenComparison(V, c, o) THEN "reversed-len-comparison-not-mirrored"
+    ELSE IF Dev_NumericPromotion(V, c, o) THEN "numeric-promotion-lost-by-isinstance"
     ELSE IF Dev_AbcTruthiness(V, c, o) THEN "abc-without-bool-always-true"
     ELSE IF Dev_EnumIterable(V, c, o) THEN "enum-instance-narrowed-as-iterable"
     ELSE IF Dev_VariadicTuple(V, c, o) THEN "variadic-tuple-removed-by-fixed-shape-typeis"
@@ -598,6 +612,7 @@ ChooseEq == AtomStage /\ InAtomSpace /\ "eq" \in NKinds /\ \E lit \in EqLits, ne
 ChooseIn == AtomStage /\ InAtomSpace /\ "in" \in NKinds /\ \E lits \in InLits, neg \in BOOLEAN : Pick(CIn(lits, neg))
 ChooseTruthy == AtomStage /\ InAtomSpace /\ "truthy" \in NKinds /\ \E c \in {CTruthy, CBoolCall} : Pick(c)
 ChooseLen == AtomStage /\ InAtomSpace /\ "len" \in NKinds /\ \E op \in LenOps, n \in 0..2 : Pick(CLen(op, n))
+ChooseLenR == AtomStage /\ InAtomSpace /\ "lenr" \in NKinds /\ \E op \in LenOps, n \in 0..2 : Pick(CLenR(op, n))
 ChooseCmp == AtomStage /\ InAtomSpace /\ "cmp" \in NKinds /\ \E op \in {"<", "<=", ">", ">="}, lit \in {I0, I1} : Pick(CCmp(op, lit))
 ChooseLegacyIsinstance == AtomStage /\ InAtomSpace /\ "c_isinstance" \in NKinds /\ \E c \in LegacyClasses : Pick(CLegacyIsinstance(c))
 ChooseLegacyIsvalue == AtomStage /\ InAtomSpace /\ "c_isvalue" \in NKinds /\ \E lit \in LegacyLits : Pick(CLegacyIsvalue(lit))
@@ -623,7 +638,7 @@ ChooseMatchSeq == AtomStage /\ InAtomSpace /\ "matchseq" \in NKinds /\ \E c \in 
 ChooseMatchOr == AtomStage /\ InCompoundSpace /\ "match" \in NKinds /\ \E a \in MatchOrAtoms, b \in MatchOrAtoms : a # b /\ Pick(CMatchOr(a, b))
 
 NNext == ChooseMatch \/ ChooseMatchSeq \/ ChooseMatchOr \/ ChooseV \/ ChooseVCompound \/ ChooseIsinstance \/ ChooseIssubclass \/ ChooseTypeIs \/ ChooseTypeGuard \/ ChooseIs \/ ChooseEq \/ ChooseIn
-         \/ ChooseTruthy \/ ChooseLen \/ ChooseCmp \/ ChooseLegacyIsinstance \/ ChooseLegacyIsvalue \/ ChooseNot \/ ChooseAnd \/ ChooseOr \/ ChooseDeep
+         \/ ChooseTruthy \/ ChooseLen \/ ChooseCmp \/ ChooseLenR \/ ChooseLegacyIsinstance \/ ChooseLegacyIsvalue \/ ChooseNot \/ ChooseAnd \/ ChooseOr \/ ChooseDeep
 
 NDone == stage = "done"
 InvN1 == NDone => N1(ta, cnd)
